@@ -845,7 +845,7 @@ def builtin(it, name, args, kw, n):
                 return K(range(*[a.v for a in args]))
             except (TypeError, ValueError) as e:
                 raise RaiseEx(type(e).__name__, 'range')
-        if all(p is not None for p in ps):
+        if all(p is not None or isinstance(a, (Sym, PInt)) for p, a in zip(ps, args)):
             return Term('range', *args)
         raise RaiseEx('TypeError', 'range of non-int') if any(isinstance(a, K) and not isinstance(a.v, int) for a in args) else Fail(f'range of {args}')
     if name in ('min', 'max') and len(args) >= 2 and any(isinstance(a, PInt) for a in args):
